@@ -248,7 +248,16 @@ def built_jobs(family, tier, seed, n4=0, chain=0, chain_max=6, rand=0, modes=('i
     if chain < 0 or chain >= len(fam):
         sel = fam
     else:
-        sel = rng.sample(fam, chain)
+        # stratified by the number of Ephemerals (the on-demand logic is where the depth is): all shapes with >= 4, half
+        # of the remaining budget on shapes with 3, the rest on shapes with 1-2
+        neph = lambda nodes: sum(1 for _, k in nodes if k == 'Ephemeral')
+        s4 = [x for x in fam if neph(x[0]) >= 4]
+        s3 = [x for x in fam if neph(x[0]) == 3]
+        s12 = [x for x in fam if neph(x[0]) <= 2]
+        sel = list(s4[:chain])
+        rest = max(0, chain - len(sel))
+        sel += rng.sample(s3, min(len(s3), rest // 2))
+        sel += rng.sample(s12, min(len(s12), chain - len(sel)))
     for nodes, edges in sel:
         add(nodes, edges, 'ch')
     for i in range(rand):
@@ -359,7 +368,7 @@ def universes(family, tier, seed):
         jobs = []
         for n in (1, 2, 3):
             for nodes, edges in H.all_instances(n):
-                for mode in (['ident', 'rel', 'prod'] if tier == 'thorough' else ['ident', 'rel']):
+                for mode in (['ident', 'rel', 'reld', 'prod'] if tier == 'thorough' else ['ident', 'reld']):
                     jobs.append({'family': 'H-ORDER', 'nodes': nodes, 'edges': edges, 'mode': mode, 'tier': tier, 'seed': seed})
         for nodes, edges in CURATED4:
             for mode in (['ident', 'rel'] if tier == 'thorough' else ['ident']):
@@ -379,7 +388,8 @@ def universes(family, tier, seed):
     jobs = []
     for n in (1, 2, 3):
         for nodes, edges in H.all_instances(n):
-            modes = ['ident', 'rel', 'prod'] if tier == 'thorough' else (['ident', 'rel'] if n <= 3 else ['ident'])
+            # reld (consumer-dependent comparison) subsumes rel (its special case G_d = identity); thorough runs both
+            modes = ['ident', 'rel', 'reld', 'prod'] if tier == 'thorough' else ['ident', 'reld']
             for mode in modes:
                 jobs.append({'family': 'H-EVAL', 'nodes': nodes, 'edges': edges, 'mode': mode})
     for nodes, edges in CURATED4:
@@ -387,10 +397,10 @@ def universes(family, tier, seed):
             jobs.append({'family': 'H-EVAL', 'nodes': nodes, 'edges': edges, 'mode': mode, 'max_states': 150000})
     if tier == 'thorough':
         jobs += built_jobs('H-EVAL', tier, seed, n4=-1, chain=-1, chain_max=6, rand=300, modes=('ident',))
-        jobs += built_jobs('H-EVAL', tier, seed, n4=600, chain=300, chain_max=6, rand=0, modes=('rel',))
+        jobs += built_jobs('H-EVAL', tier, seed, n4=600, chain=300, chain_max=6, rand=0, modes=('reld',))
     else:
-        jobs += built_jobs('H-EVAL', tier, seed, n4=250, chain=100, chain_max=6, rand=0, modes=('ident',))
-        jobs += built_jobs('H-EVAL', tier, seed, n4=60, chain=20, chain_max=6, rand=0, modes=('rel',), curated=False)
+        jobs += built_jobs('H-EVAL', tier, seed, n4=250, chain=200, chain_max=6, rand=0, modes=('ident',))
+        jobs += built_jobs('H-EVAL', tier, seed, n4=60, chain=20, chain_max=6, rand=0, modes=('reld',), curated=False)
     for i, j in enumerate(jobs):
         j['name'] = 'u%d_%s%s_%s' % (i, 'B' if j.get('hist') == 'built' else '', j['mode'], ''.join(k[0] for _, k in j['nodes']) + '_' + ''.join('%s%s' % (u, d) for d, u in j['edges']))
     rng = random.Random(seed)
